@@ -6,12 +6,13 @@ rules=subprocess.run(['python3','/verif/tools/gen_rules_md.py'],capture_output=T
 s=re.sub(r'<!-- RULES-BEGIN -->.*?<!-- RULES-END -->','<!-- RULES-BEGIN -->\n'+rules.replace('\\','\\\\')+'\n<!-- RULES-END -->',s,flags=re.S)
 mx='/verif/seeded/MATRIX.txt'
 if os.path.exists(mx):
-    rows=[l.split(None,4) for l in open(mx) if l.strip()]
+    rows=sorted([l.split(None,4) for l in open(mx) if l.strip()])
     t="| mutant | what it changes | result |\n|---|---|---|\n"
     import json
     for r in rows:
         mid=r[0]; res=' '.join(r[3:]).strip()
         meta='/verif/seeded/%s/meta.json'%mid
+        if not os.path.exists(meta): meta='/verif/seeded-unexecuted/%s/meta.json'%mid
         what=''
         if os.path.exists(meta):
             m=json.load(open(meta)); what=(m.get('breaks') or '')[:160].replace('|','/').replace('\n',' ')
